@@ -78,7 +78,18 @@ class BV:
     def xor_(self, o):
         known = (self.s | self.c) & (o.s | o.c)
         val = (self.s ^ o.s) & known
-        return BV(val, known & ~val)
+        clear = known & ~val
+        keep, src = 0, None
+        if self.src is not None and self.src == o.src:
+            # x ^ x = 0 on the bits both operands keep from the same source (mode ^ (mode & MASK))
+            same = self.keep & o.keep
+            clear |= same
+            keep, src = ((self.keep & o.c) | (o.keep & self.c)) & ~same, self.src
+        elif self.src is not None:
+            keep, src = self.keep & o.c, self.src
+        elif o.src is not None:
+            keep, src = o.keep & self.c, o.src
+        return BV(val, clear, (), keep, src)
 
     def __repr__(self):
         r = "s=%#x c=%#x" % (self.s, self.c)
